@@ -126,8 +126,13 @@ def setup_config(
     if "current" in config:
         curr = config["current"]
 
-        # if cstep and steps are equal, we stop here.
-        if curr.get("cstep") == curr.get("restarted_from", -1):
+        # if we already restarted from this step and there are no steps
+        # left to do, we stop here. (A finished run that was restarted with
+        # an unchanged number of steps can still be extended afterwards.)
+        if (
+            curr.get("cstep") == curr.get("restarted_from", -1)
+            and curr["cstep"] >= config["simulation"]["steps"]
+        ):
             return None
 
         # set 'restarted_from'
